@@ -6,6 +6,8 @@ Driver commands of the Transform area (C17).
 
 * `tr-def <datum>`                 model `Transform.tryNew`            → `ok` | `err <class>` | `panic` | `hang`
 * `tr-use <def datum> <use datum>` model `tryNew` then `transform`     → `def-err` | `ok <datum>` | `err <class>` | `panic` | `hang`
+* `tr-use-vm <def> <use>`          same as `tr-use` (the harness went through `define-syntax` in a `Vm`)
+* `tr-gap <def> <use>`             `gap` | `nogap`: does some rule meet `Spec.Match.zeroRepTail` on this use
 * `spec-tr-use <def> <use>`        R7RS spec (`Spec.Match`)            → `ok <datum>` | `nomatch` | `mismatch` | `malformed` | `malformed-def`
 The two datums travel in one token list (prefix code, so the boundary is unambiguous).
 -/
@@ -33,7 +35,13 @@ def handle (cmd : String) (args : List String) : Option String :=
     let (d, rest) ← decDatum args
     if !rest.isEmpty then none
     else pure (showRes (fun _ => "ok") (Transform.tryNew (defFuel d) d))
-  | "tr-use" => do
+  | "tr-gap" => do
+    -- decidable guard of the `_partial` theorems / predicate of finding C17-empty-ellipsis-before-tail
+    let (d, u) ← dec2 args
+    match Spec.Match.parseDef d with
+    | none => pure "malformed-def"
+    | some rs => pure (if rs.rules.any (fun r => Spec.Match.zeroRepTailRule rs.ctx r u) then "gap" else "nogap")
+  | "tr-use" | "tr-use-vm" => do
     let (d, u) ← dec2 args
     match Transform.tryNew (defFuel d) d with
     | .ok t => pure (showRes (fun e => "ok " ++ encDatum e) (t.transform (useFuel d u) u))
